@@ -34,6 +34,23 @@ SEEDS = ["(a b . c)", "#(1 2 #(3))", "#u8(1 2 255)", "\"str\\n\\x41;\"", "#\\x41
          "#0=(a . #0#)", "'(quote `(a ,b ,@c))", "#;(x) y", "#|block|# z", "#t #f #true #false", "(1 . (2 . (3 . ())))", "#e1.5 #x-ff #b101"]
 
 
+def escape_runs(rng):
+    """long uninterrupted runs of escapes / tokens crossing the reader's internal buffer sizes"""
+    n = rng.choice([1, 7, 31, 32, 33, 63, 64, 65, 127, 128, 129, 200, 1000])
+    k = rng.randrange(6)
+    if k == 0:
+        return '"' + "\\x1F600;" * n + '"'
+    if k == 1:
+        return "|" + "\\x3bb;" * n + "|"
+    if k == 2:
+        return '"' + "a" * (n - 1) + "\\x1F600;" * 3 + '"'
+    if k == 3:
+        return "sym" + "\u03bb" * n
+    if k == 4:
+        return "#\\x" + "1" * n
+    return "1" * n + "/" + "3" * n
+
+
 def mutate(rng, s):
     s = list(s)
     for _ in range(rng.randrange(1, 4)):
@@ -62,6 +79,8 @@ def session_file(path, rng, calls, ntexts):
             f.write(sexp(c) + "\n")
             if ntexts and rng.random() < ntexts:
                 f.write("(readtext %s)\n" % scheme_string(mutate(rng, rng.choice(SEEDS))))
+                if rng.random() < 0.5:
+                    f.write("(readtext %s)\n" % scheme_string(escape_runs(rng).replace("\\\\", "\\")))
 
 
 def run_session(build, sc, label, sess, env=None, timeout=240):
